@@ -23,6 +23,13 @@
 (*           the Expr writer (C12), encoded by Expr!EncExpr under the       *)
 (*           unit's context.  Versions 4 / 5 carry DW_FORM_exprloc, version *)
 (*           3 DW_FORM_block1 (exprloc is new in DWARF 4).                  *)
+(*           NESTING (round 5): every operation with a DIE-reference        *)
+(*           operand also inside a DW_OP_entry_value / GNU_entry_value      *)
+(*           block (2.5.1.7), inside a block inside a block (with a second  *)
+(*           operation next to it), and right after a block (NestedExprs):  *)
+(*           the unit context - in particular the unit's offset that turns  *)
+(*           a unit-relative reference into the section-relative number     *)
+(*           the dump shows - holds on every level, in every unit position. *)
 (*   seqs  : sequences of SeqLen single-unit files dumped one after the     *)
 (*           other by ONE process (action Dump) - the check runs the clone  *)
 (*           in-process, and readelf.py keeps module-level state between    *)
@@ -34,7 +41,9 @@
 (* unit_length - 7.5.1.1: 4 or 12 bytes of initial length - meets every     *)
 (* unit header where the writer put it, reads the writer's version /        *)
 (* address size there, and ends at the end of the section), ExprsDecode     *)
-(* (Expr!Dec under the unit's context recovers every expression),           *)
+(* (Expr!Dec under the unit's context recovers every expression; ASSUME     *)
+(* over the unit table's keys), NestingReached (the nested shapes have the  *)
+(* depths they claim and cover every DIE-reference operation),              *)
 (* ContextMatters (for the reference operations the encodings under the     *)
 (* two formats differ, for DW_OP_addr those under the two address sizes:    *)
 (* a dumper configured for another unit's context misreads them),           *)
@@ -62,9 +71,15 @@ XCtx(k, u) == [asz |-> u.asz, osz |-> u.osz, le |-> k[1], ver |-> u.ver, lvl |->
 
 (* ------------------------------ expressions ----------------------------- *)
 \* addr; const4u, reg3, breg7, regx (register names); call2, call4, GNU_parameter_ref, const_type, regval_type, deref_type,
-\* convert (unit-relative references: printed relative to the section); call_ref, implicit_pointer, GNU_implicit_pointer
-EnvCodes == {3, 12, 83, 119, 144, 152, 153, 250, 164, 165, 166, 168, 154, 160, 242}
-ASSUME EnvCodes \subseteq Codes /\ RefCodes \subseteq EnvCodes
+\* convert, reinterpret and the GCC forms of DWARF 2-4 producers GNU_const_type, GNU_regval_type, GNU_deref_type,
+\* GNU_convert (unit-relative references: printed relative to the section); call_ref, implicit_pointer, GNU_implicit_pointer
+\* (DW_OP_xderef_type, 0xa7, is outside the envelope: neither GNU readelf 2.40 nor the clone describes it)
+EnvCodes == {3, 12, 83, 119, 144, 152, 153, 250, 164, 165, 166, 168, 169, 244, 245, 246, 247, 154, 160, 242}
+\* the operations with a DIE-reference operand: DWARF5 2.5.1.5 (call2, call4: unit-relative; call_ref: section-relative), 2.5.1.6
+\* (type operands: unit-relative), 2.6.1.1.4 (implicit_pointer: section-relative) and their GNU forms
+UnitRefCodes == {152, 153, 250, 164, 165, 166, 168, 169, 244, 245, 246, 247}
+DieRefCodes == UnitRefCodes \cup RefCodes
+ASSUME EnvCodes \subseteq Codes /\ RefCodes \subseteq EnvCodes /\ DieRefCodes \subseteq EnvCodes /\ UnitRefCodes \cap RefCodes = {}
 \* operands: the representatives of the Expr writer, except that a register NUMBER is one every machine of FileKinds has (5) and a
 \* DIE REFERENCE designates a DIE: ru (unit-relative operands: call2, call4, GNU_parameter_ref, the type operand of const_type,
 \* regval_type, deref_type, convert) is the offset of the unit's own compile-unit entry, rs (section-relative: call_ref,
@@ -74,24 +89,43 @@ FixOf(n, k, c) == [d |-> LEn(n, Width(k, c)), s |-> FALSE]
 LebOf(n) == [g |-> <<n>>, s |-> FALSE]
 ASSUME KindsOf(152) = <<"u2">> /\ KindsOf(153) = <<"u4">> /\ KindsOf(250) = <<"u4">> /\ KindsOf(164) = <<"uleb", "tblob">>
        /\ KindsOf(165) = <<"uleb", "uleb">> /\ KindsOf(166) = <<"u1", "uleb">> /\ KindsOf(168) = <<"uleb">> /\ KindsOf(144) = <<"uleb">>
+       /\ KindsOf(244) = KindsOf(164) /\ KindsOf(245) = KindsOf(165) /\ KindsOf(246) = KindsOf(166)
+       /\ KindsOf(247) = KindsOf(168) /\ KindsOf(169) = KindsOf(168) /\ KindsOf(163) = <<"expr">> /\ KindsOf(243) = <<"expr">>
        /\ KindsOf(154) = <<"off">> /\ KindsOf(160) = <<"off", "sleb">> /\ KindsOf(242) = <<"off", "sleb">>
 Op(code, c, ru, rs) ==
   LET rep == SeqArgs(code, c) IN
   [code |-> code,
    args |-> CASE code \in {152, 153, 250} -> <<FixOf(ru, KindsOf(code)[1], c)>>
-              [] code = 164 -> <<LebOf(ru), rep[2]>>
-              [] code = 165 -> <<Reg5, LebOf(ru)>>
-              [] code = 166 -> <<rep[1], LebOf(ru)>>
-              [] code = 168 -> <<LebOf(ru)>>
+              [] code \in {164, 244} -> <<LebOf(ru), rep[2]>>
+              [] code \in {165, 245} -> <<Reg5, LebOf(ru)>>
+              [] code \in {166, 246} -> <<rep[1], LebOf(ru)>>
+              [] code \in {168, 247, 169} -> <<LebOf(ru)>>
               [] code = 144 -> <<Reg5>>
               [] code = 154 -> <<FixOf(rs, "off", c)>>
               [] code \in {160, 242} -> <<FixOf(rs, "off", c), rep[2]>>
               [] OTHER -> rep]
 After == 159                                                   \* DW_OP_stack_value follows (no operands: it is met where the operation before it ends)
-ExprsOf(c, ru, rs) ==
+FlatExprs(c, ru, rs) ==
   LET cs == Asc(EnvCodes \cap CodesIn(c)) IN
   [i \in 1..(2 * Len(cs)) |-> IF (i % 2) = 1 THEN <<Op(cs[(i + 1) \div 2], c, ru, rs)>>
                                ELSE <<Op(cs[i \div 2], c, ru, rs), Op(After, c, ru, rs)>>]
+\* NESTING (DWARF5 2.5.1.7: the operand of DW_OP_entry_value - GCC before DWARF 5: DW_OP_GNU_entry_value - is a block that holds
+\* a DWARF expression or a register location description, evaluated in the context of the same unit): every operation with a
+\* DIE-reference operand inside an entry-value block of either opcode, inside a block inside a block, and right AFTER a block
+\* (the unit context holds on every level and is not lost when a block has been left).  GCC emits e.g.
+\* DW_OP_GNU_entry_value (DW_OP_GNU_regval_type ...) for floating-point parameters.
+InBlock(nest, e) == [code |-> nest, args |-> <<[e |-> e, lp |-> 0]>>]
+NestShapes == 5
+NestedOf(o, c, k) ==
+  CASE k = 1 -> <<InBlock(163, <<o>>)>>
+    [] k = 2 -> <<InBlock(243, <<o>>)>>
+    [] k = 3 -> <<InBlock(163, <<InBlock(163, <<o>>)>>)>>
+    [] k = 4 -> <<InBlock(243, <<InBlock(163, <<Op(144, c, 0, 0), o>>)>>), Op(After, c, 0, 0)>>
+    [] k = 5 -> <<InBlock(163, <<Op(144, c, 0, 0)>>), o>>
+NestedExprs(c, ru, rs) ==
+  LET cs == Asc(DieRefCodes \cap CodesIn(c)) IN
+  [i \in 1..(NestShapes * Len(cs)) |-> NestedOf(Op(cs[((i - 1) \div NestShapes) + 1], c, ru, rs), c, ((i - 1) % NestShapes) + 1)]
+ExprsOf(c, ru, rs) == FlatExprs(c, ru, rs) \o NestedExprs(c, ru, rs)
 
 (* --------------------------------- units -------------------------------- *)
 \* abbreviations: 1 DW_TAG_compile_unit, children, no attributes; 2 DW_TAG_variable, DW_AT_location DW_FORM_exprloc;
@@ -100,17 +134,23 @@ Abbrev == <<1, 17, 1, 0, 0, 2, 52, 0, 2, 24, 0, 0, 3, 52, 0, 2, 10, 0, 0, 0>>
 VarDie(u, bs) == IF u.ver >= 4 THEN <<2>> \o UlebOfNat(Len(bs)) \o bs ELSE <<3, Len(bs)>> \o bs
 \* 7.5.1.1: the length of a unit header = the offset of the unit's first entry
 HdrLen(u) == (IF u.osz = 4 THEN 4 ELSE 12) + 2 + u.osz + 1 + (IF u.ver >= 5 THEN 1 ELSE 0)
-UnitExprs(k, u, u1) == ExprsOf(XCtx(k, u), HdrLen(u), HdrLen(u1))
-UnitBody(k, u, u1) ==
+\* (h1: where the first unit's compile-unit entry lies - the target of the section-relative references)
+UnitExprs(k, u, h1) == ExprsOf(XCtx(k, u), HdrLen(u), h1)
+UnitBody(k, u, h1) ==
   LET c == XCtx(k, u)
-      es == UnitExprs(k, u, u1)
+      es == UnitExprs(k, u, h1)
   IN <<1>> \o Flat([i \in 1..Len(es) |-> VarDie(u, EncExpr(es[i], c))]) \o <<0>>
 \* 7.5.1.1: version (2), [DWARF 5: unit_type = DW_UT_compile (1), address_size (1)], debug_abbrev_offset (4 / 8), [DWARF 2-4: address_size]
 UnitHeader(k, u) ==
   IF u.ver >= 5 THEN Fix(N(u.ver), 2, k[1]) \o <<1, u.asz>> \o Fix(Z0, u.osz, k[1])
   ELSE Fix(N(u.ver), 2, k[1]) \o Fix(Z0, u.osz, k[1]) \o <<u.asz>>
 LengthField(n, osz, le) == IF osz = 4 THEN Fix(N(n), 4, le) ELSE <<255, 255, 255, 255>> \o Fix(N(n), 8, le)
-UnitBytes(k, u, u1) == LET rest == UnitHeader(k, u) \o UnitBody(k, u, u1) IN LengthField(Len(rest), u.osz, k[1]) \o rest
+UnitBytesAt(k, u, h1) == LET rest == UnitHeader(k, u) \o UnitBody(k, u, h1) IN LengthField(Len(rest), u.osz, k[1]) \o rest
+\* (TLC does not memoise: the bytes of a unit are a function of <<file kind, unit context, h1>>, tabulated once)
+HdrLens == {HdrLen(u) : u \in UCtx}
+UnitKeys == UNION {{<<k, u, h>> : u \in UnitsFor(k), h \in HdrLens} : k \in FileKinds}
+UnitTab == TLCEval([x \in UnitKeys |-> UnitBytesAt(x[1], x[2], x[3])])
+UnitBytes(k, u, u1) == UnitTab[<<k, u, HdrLen(u1)>>]
 InfoBytes(f) == Flat([i \in 1..Len(f.units) |-> UnitBytes(f.kind, f.units[i], f.units[1])])
 
 (* -------------------------------- machine ------------------------------- *)
@@ -160,14 +200,26 @@ UnitsTile ==
             \* the references of the expressions designate entries: HdrLen is where the unit's first entry (abbreviation 1) lies
             /\ Len(LengthField(0, file.units[i].osz, file.kind[1])) + Len(UnitHeader(file.kind, file.units[i])) = HdrLen(file.units[i])
             /\ bs[w.units[i][1] + HdrLen(file.units[i]) + 1] = 1
+\* (a property of the unit contexts, not of the files that combine them: checked once, over the table's keys)
 ExprsDecode ==
-  (Done /\ emode = "files") =>
-    \A i \in 1..Len(file.units) :
-      LET c == XCtx(file.kind, file.units[i])
-          es == UnitExprs(file.kind, file.units[i], file.units[1])
+  \A x \in UnitKeys :
+      LET c == XCtx(x[1], x[2])
+          es == UnitExprs(x[1], x[2], x[3])
       IN \A j \in 1..Len(es) : LET bs == EncExpr(es[j], c) IN
            /\ Dec(bs, c) = [ok |-> TRUE, out |-> Annot(es[j], c), pos |-> Len(bs)]
            /\ Len(bs) < 128
+ASSUME ExprsDecode
+\* the nested expressions reach the depths their shapes say (Expr!Depth counts the entry-value blocks around the innermost
+\* operation), every DIE-reference operation of the context is among them, and in a unit that is not the first of its section a
+\* unit-relative reference and the section-relative offset of its target differ (that is what the dump has to add)
+ShapeDepth == <<1, 1, 2, 2, 1>>
+NestingReached ==
+  \A x \in UnitKeys :
+      LET c == XCtx(x[1], x[2])
+          ns == NestedExprs(c, HdrLen(x[2]), x[3])
+      IN /\ Len(ns) = NestShapes * Cardinality(DieRefCodes \cap CodesIn(c)) /\ UnitRefCodes \subseteq CodesIn(c)
+         /\ \A i \in 1..Len(ns) : Depth(ns[i]) = ShapeDepth[((i - 1) % NestShapes) + 1]
+ASSUME NestingReached /\ Len(ShapeDepth) = NestShapes
 \* a dumper set up for the other format / the other address size does not see the same operation (constant level)
 Other(c, f) == IF f = "osz" THEN [c EXCEPT !.osz = 12 - @] ELSE [c EXCEPT !.asz = 12 - @]
 ContextMatters ==
